@@ -796,39 +796,47 @@ func scenarioRestart() *explore.Scenario {
 			// loading the partition's raft group and replaying its log is left to race with the first caller
 			x.S.KillPrefix("n1/")
 			node.Conn.Close()
-			setupDone := false
-			x.S.Spawn("n1/setup-second", false, func() {
-				node = world.NewRNode(1, db, []uint64{1})
-				if err := node.ApplyCreate(meta); err != nil {
+			// the new life's set-up (catalogue replay: the dataset reappears, its partition's raft group is loaded, the group's
+			// log is replayed) and the new life's first client race each other; a client that comes too early is told so
+			var node2 *world.RNode
+			x.S.Spawn("n1/setup-second", true, func() {
+				n := world.NewRNode(1, db, []uint64{1})
+				node2 = n
+				if err := n.ApplyCreate(meta); err != nil {
 					panic(err)
 				}
-				setupDone = true
 			})
-			if r := x.S.Run(defaultPick{}, func() bool { return setupDone }); r != vrt.Stopped && !setupDone {
-				ev.Tool("scenario F: the second life's set-up did not finish: %v", x.S.Blocked())
-			}
-			x.OnCleanup(func() { node.Conn.Close(); db.Close() })
-			for _, t := range x.S.Timers() {
-				t.Stop()
-			}
+			x.OnCleanup(func() {
+				if node2 != nil {
+					node2.Conn.Close()
+				}
+				db.Close()
+			})
 			var err error
-			done := false
-			ds := node.Dataset(meta)
-			// loading the group / replaying its log and the new life's first caller race each other
+			done, early := false, false
 			x.S.Spawn("n1/caller0", true, func() {
+				if node2 == nil {
+					early = true
+					return
+				}
+				ds, gerr := node2.DM.Get(uuid.FromBytesOrNil(meta.Id))
+				if gerr != nil {
+					early = true
+					return
+				}
 				err = ds.Remove(context.Background(), ids[2]) // never stored
 				done = true
 			})
 			return func(end vrt.EndReason) *explore.Violation {
-				if !done && x.S.Panicked() == nil {
+				if !done && !early && x.S.Panicked() == nil && node2 != nil {
 					// time passes: the group elects its leader (the caller's proposal can go ahead), then the caller's deadlines
-					x.S.Spawn("n1/campaign-second", false, func() { node.Campaign(meta) })
+					x.S.Spawn("n1/campaign-second", false, func() { node2.Campaign(meta) })
 					x.S.Run(defaultPick{}, nil)
 				}
-				if !done {
+				if !done && !early {
 					letTimePass(x)
 				}
-				x.Outcome = fmt.Sprintf("done=%v err=%v", done, err)
+				x.Outcome = fmt.Sprintf("early=%v done=%v err=%v", early, done, err)
 				if done && err == nil {
 					return &explore.Violation{Key: "outcome-of-a-replayed-entry-delivered-to-a-new-caller", Desc: "after the restart a caller removed an id that was never stored and was told it succeeded: it received the outcome of an entry replayed from the previous life"}
 				}
